@@ -11,7 +11,7 @@ import types
 
 TOOL_ID = 4
 _mon = sys.monitoring
-_state = {"sched": None, "p": 0.0, "rng": None, "count": 0, "points": None, "fired": 0}
+_state = {"sched": None, "p": 0.0, "rng": None, "count": 0, "points": None, "fired": 0, "first_p": 0.0, "seen": set()}
 _codes: list = []
 _registered = False
 
@@ -41,6 +41,8 @@ def _code_objects(module) -> list:
                     for g in (a.fget, a.fset, a.fdel):
                         if g is not None:
                             walk(g.__code__)
+                elif isinstance(getattr(a, "func", None), types.FunctionType):
+                    walk(a.func.__code__)  # functools.cached_property and the like
                 elif isinstance(f, types.FunctionType):
                     walk(f.__code__)
     return out
@@ -61,6 +63,15 @@ def _cb(code, offset):
     elif _state["rng"].random() < _state["p"]:
         _state["fired"] += 1
         s.yield_point("preempt")
+    elif _state["first_p"]:
+        # the first time a thread enters a function: where check-then-act races on lazily created state live
+        me = s.me()
+        key = (me.idx if me is not None else -1, id(code))
+        if key not in _state["seen"]:
+            _state["seen"].add(key)
+            if _state["rng"].random() < _state["first_p"]:
+                _state["fired"] += 1
+                s.yield_point("preempt-first-visit")
     return None
 
 
@@ -75,8 +86,8 @@ def register(modules) -> int:
     return len(_codes)
 
 
-def enable(sched, *, p: float = 0.0, rng=None, points=None) -> None:
-    _state.update(sched=sched, p=p, rng=rng, count=0, points=set(points) if points is not None else None, fired=0)
+def enable(sched, *, p: float = 0.0, rng=None, points=None, first_p: float = 0.0) -> None:
+    _state.update(sched=sched, p=p, rng=rng, count=0, points=set(points) if points is not None else None, fired=0, first_p=first_p, seen=set())
     for co in _codes:
         _mon.set_local_events(TOOL_ID, co, _mon.events.INSTRUCTION)
 
